@@ -109,7 +109,7 @@ func vSymState(b vBounds) *vEnv {
 			vAssume(d.rttEstimates.times[i] >= 0 && d.rttEstimates.times[i] <= 1<<40)
 		}
 	}
-	amev := d.isAntiMEVExtensionEnabled()
+	amev := e.amevOn()
 
 	// --- tables
 	d.PreparationPayloads = make([]ConsensusPayload[vhash], n)
@@ -246,12 +246,14 @@ func vSymState(b vBounds) *vEnv {
 		ct := vParam("ctype0")
 		if i == 1 {
 			ct = vParam("ctype1")
+		} else if i == 2 {
+			ct = vParam("ctype2")
 		}
 		cp := vSymPayload("cache", vMsgTypes[ct], vU32("cache.height"))
 		if ct == apiPrepareRequest {
 			cp.txs = vSymTxs("cache", vParam("mntx"))
 		}
-		vAssume(int(cp.vidx) != b.my || e.watchFlag)
+		vAssume(int(cp.vidx) != b.my || e.watchFlag || cp.height > d.BlockIndex) // a later height may have another validator list
 		if vParam("csame") == 1 {
 			vAssume(cp.height == d.BlockIndex)
 		} else if vParam("csame") == 2 {
@@ -271,6 +273,17 @@ func vSymState(b vBounds) *vEnv {
 		for j := i + 1; j < np; j++ {
 			vAssume(e.pool[i].Hash() != e.pool[j].Hash())
 		}
+	}
+	if vParam("poollater") != 0 {
+		// a transaction arrives between two readings of the pool inside one call
+		e.poolLater = append(append([]Transaction[vhash](nil), e.pool...), &vTx{h: vhash(vU64("pool.later"))})
+		for _, t := range e.pool {
+			vAssume(t.Hash() != e.poolLater[len(e.poolLater)-1].Hash())
+		}
+	}
+	if vParam("mdup") != 0 && len(d.MissingTransactions) > 0 {
+		// sendRecoveryRequest re-requests the missing transactions: the list may hold a hash twice
+		d.MissingTransactions = append(d.MissingTransactions, d.MissingTransactions[0])
 	}
 	return e
 }
